@@ -100,8 +100,10 @@ def _print(*a, **k):
 
 
 def _repr(x):
-    if builtins.isinstance(x, SymStr) and 'repr' in STUBS:
-        return STUBS['repr'](x)
+    if builtins.isinstance(x, SymStr):
+        return sstr.sym_repr(x) if to_plain(x) is None else builtins.repr(to_plain(x))
+    if builtins.isinstance(x, list) and any(builtins.isinstance(y, SymStr) for y in x):
+        return sstr.sym_obj_str(x, True)
     return builtins.repr(x)
 
 
